@@ -223,6 +223,8 @@ def run(rep, tier):
     rep.rule("R6", "dump() and dumps(): the marshaller's chunk sink is a local buffer converted to bytes by dumps(); what dump() writes to the file is dumps()'s result")
     rep.rule("R7", "the file-based reader (load): the type byte is decoded before it indexes the str-keyed dispatch table; r_byte/r_short/r_long/r_long64 "
                    "return the little-endian integer of the bytes read")
+    rep.rule("R9", "the generic dump() sends a plain str to the text writer and every int to the multi-digit writer when no target or a Python 3 target is named "
+                   "(the Python 2 routing applies to a named Python 2 target only)")
     rep.rule("R8", "TYPE_LONG in both readers: |size| 16-bit digits are read, digit i contributes digit << 15*i to an accumulator that starts at 0, and the result is "
                    "negated exactly when the stored size is negative")
     rep.rule("R4", "fast readers consume the layout of their type code; r_long/r_short are little-endian with sign extension from the top bit")
@@ -546,6 +548,28 @@ def run(rep, tier):
         rep.ob("R7", f.qualname, "integer-from-bytes", ok_int and not bad, expected="little-endian %s integer of the %d bytes read" % ("unsigned" if meth == "r_byte" else "signed", nbytes),
                derived=(["returns the bytes object %s" % r for r in raw] or bad[:3] or "equal on %d byte patterns" % len(pats)) if rets else "no return",
                msg="%s does not turn the bytes read from the file into the integer they encode" % meth)
+    # ---------------------------------------------------------------- R9 the generic dump() routes plain values by the host's types unless a Python 2 target is named
+    dmp = M.lookup("dump")
+    for pv, label in ((None, "None"), ((3, 8), "3.8"), ((3, 12, 1), "3.12.1")):
+        for tn, val, want_w in (("str", "abc", "dump_unicode"), ("int", 5, "dump_long"), ("int", 2 ** 70, "dump_long")):
+            reached = []
+
+            def hook9(spec, name, fv, args, kw, node):
+                base = name.split(".")[-1]
+                if base.startswith("dump_") and name.startswith("xdis.marsh._Marshaller."):
+                    reached.append(base)
+                    return None
+                return NotImplemented
+            me9 = Instance(M)
+            me9.attrs.update(_write=Sym("WRITE"), python_version=pv)
+            sp9 = Spec(F, hooks=[hook9])
+            try:
+                sp9.run(dmp, [me9, val])
+            except Exception as ex:
+                reached.append("raises %s" % type(ex).__name__)
+            rep.ob("R9", dmp.qualname, "target=%s:%s(%s)-writer" % (label, tn, "big" if val == 2 ** 70 else "small" if tn == "int" else "plain"), reached[:1] == [want_w],
+                   expected=want_w, derived=reached[:2],
+                   msg="with python_version=%s a %s goes to %s: the host's marshal.loads then returns a different kind or value (text as bytes, wide ints truncated)" % (label, tn, reached[:1]))
     # ---------------------------------------------------------------- R8 multi-digit integers in both readers
     for C in (FU, UMC):
         long_reader_rule(rep, F, C, "R8")
